@@ -20,6 +20,7 @@ type failWriter struct {
 	failAt  int // first byte offset that fails; -1 never
 	written bytes.Buffer
 	calls   int
+	chunks  []any // every Write's payload (healthy runs): the chunk list handed to the model
 }
 
 var errSink = errors.New("sink failed")
@@ -27,6 +28,7 @@ var errSink = errors.New("sink failed")
 func (w *failWriter) Write(p []byte) (int, error) {
 	w.calls++
 	if w.failAt < 0 {
+		w.chunks = append(w.chunks, string(p))
 		return w.written.Write(p)
 	}
 	room := w.failAt - w.written.Len()
@@ -126,8 +128,24 @@ func runC12(r *Run, replay *Case) {
 				continue
 			}
 			full := w.written.String()
+			mkind := "string"
+			if e == "Render" || e == "RenderFile" {
+				mkind = "file"
+				if strings.Contains(p.desc, "layout") {
+					mkind = "layout"
+				}
+			}
+			chunks := w.chunks
+			if chunks == nil {
+				chunks = []any{}
+			}
 			mk := func(kind string, k int) *Case {
-				return &Case{Name: fmt.Sprintf("%s via %s, %s %d", p.desc, e, kind, k), Input: map[string]any{"prog": p.desc, "entry": e, "kind": kind, "k": k},
+				var failAt any
+				if kind == "fail-at" {
+					failAt = k
+				}
+				return &Case{Name: fmt.Sprintf("%s via %s, %s %d", p.desc, e, kind, k), Op: true,
+					Input: map[string]any{"op": "writer", "prog": p.desc, "entry": e, "kind": mkind, "case": kind, "k": k, "fails": err != nil, "chunks": chunks, "failAt": failAt, "cancelled": kind == "cancelled"},
 					Key: fmt.Sprintf("%s|%s|%s|%d", p.desc, e, kind, k), Tags: []string{"entry:" + e, "prog:" + p.desc, "kind:" + kind}, Oracle: &Verdict{OK: true}}
 			}
 			c := mk("healthy", -1)
